@@ -290,6 +290,8 @@ def build_class(prog, out_missing=False):
     def body(self, i, d, args, kwargs):
         self._vlog.append(('step', i, tuple(mval(a) for a in args), tuple(sorted((k, mval(v)) for k, v in kwargs.items())),
                            self.paused, mval(self.status)))
+        if self.inputs['dflt'] != 'd0':           # every step reads a parsed input that came from a declared default
+            raise AssertionError('parsed input lost: %r' % (self.inputs,))
         for a in list(args) + list(kwargs.values()):
             if isinstance(a, list) and a and a[0] == 'm':
                 a.append('used')          # consume the mutable argument in place (a checkpoint must not alias it)
@@ -323,6 +325,7 @@ def build_class(prog, out_missing=False):
         super(klass, cls).define(spec)
         spec.outputs.dynamic = True
         spec.inputs.dynamic = True
+        spec.input('dflt', default='d0')           # (parsed inputs differ from the raw ones, also when none are given)
         if out_missing:
             spec.output('never_emitted', required=True)
     ns['define'] = classmethod(define)
@@ -349,6 +352,8 @@ def build_workchain_class(prog, awt):
 
         def mk(i=i, d=d):
             def before(self):
+                if self.inputs['dflt'] != 'd0':
+                    raise AssertionError('parsed input lost: %r' % (self.inputs,))
                 self._vlog.append(('step', i, (), (), self.paused, mval(self.status)))
                 self._vlog.append(('ctx', tuple((k, mval(v.get('value')) if isinstance(v, dict) else mval(v))     # child: outputs
                                                for k, v in self.ctx.__dict__.items()),
@@ -386,6 +391,7 @@ def build_workchain_class(prog, awt):
         super(klass, cls).define(spec)
         spec.outputs.dynamic = True
         spec.inputs.dynamic = True
+        spec.input('dflt', default='d0')
         spec.outline(*[getattr(cls, 'step%d' % (k + 1)) for k in range(len(prog))])
     ns['define'] = classmethod(define)
 
